@@ -12,6 +12,7 @@ import os
 import re
 import shutil
 import subprocess
+import threading
 import sys
 import time
 
@@ -125,6 +126,17 @@ class Check:
                              bufsize=1 << 20)
         deadline = t0 + timeout
         tail = []
+        # the deadline must hold also while TLC prints nothing (reading its output blocks): a watchdog kills the process
+
+        def _expire():
+            res.timed_out = True
+            try:
+                p.kill()
+            except OSError:
+                pass
+        watchdog = threading.Timer(timeout, _expire)
+        watchdog.daemon = True
+        watchdog.start()
         try:
             for line in p.stdout:
                 if line_cb is not None and line and line[0] in '{"[':
@@ -141,6 +153,7 @@ class Check:
                     break
             p.wait(timeout=30)
         finally:
+            watchdog.cancel()
             keep.close()
             if p.poll() is None:
                 p.kill()
